@@ -380,9 +380,14 @@ def change_kind(cur_fn, base_fn):
     if len(cs) != len(bs):
         return "restructured"
     leaf = False
+    stmt_level = os.environ.get("VCHECK_STMT_LEVEL", "1") == "1"
     for (k1, a), (k2, b) in zip(cs, bs):
-        if k1 != k2 or _skeleton(a) != _skeleton(b):
+        if k1 != k2:
             return "restructured"
+        if _skeleton(a) != _skeleton(b):
+            if not stmt_level:
+                return "restructured"
+            leaf = True
         if ast.dump(a, annotate_fields=False) != ast.dump(b, annotate_fields=False):
             leaf = True
     return "leaf" if leaf else "same"
